@@ -113,8 +113,10 @@ func (t *TransactionManager) GetTransaction(id string) (*Transaction, error) {
 // rollbackExpired rolls the given transaction back after its timeout elapsed. The timer might fire while the
 // transaction is being confirmed or canceled; if it is no longer the ongoing transaction, nothing is to be done.
 func (t *TransactionManager) rollbackExpired(ctx context.Context, trans *Transaction) error {
+	verifhook.Point("tm.rollback.beforeLock")
 	t.tmMutex.Lock()
 	defer t.tmMutex.Unlock()
+	verifhook.Point("tm.rollback.locked")
 	if t.transaction != trans {
 		return nil
 	}
